@@ -144,7 +144,7 @@ class FileRenamer:
         destination_path: Path,
         override: bool = False,
     ) -> None:
-        if not override and destination_path.exists():
+        if not override and os.path.lexists(destination_path):
             raise DestinationAlreadyExistsError(source_path, destination_path)
         if source_path.parent != destination_path.parent:
             raise InvalidDestinationError(
@@ -160,7 +160,7 @@ class FileMover:
         destination_path: Path,
         override: bool = False,
     ) -> None:
-        if not override and destination_path.exists():
+        if not override and os.path.lexists(destination_path):
             raise DestinationAlreadyExistsError(source_path, destination_path)
         destination_path.parent.mkdir(parents=True, exist_ok=True)
         shutil.move(str(source_path), destination_path)
@@ -178,13 +178,14 @@ class DryRunRenamer:
         override: bool = False,
     ) -> None:
         source_exists = (
-            source_path.exists() or source_path in self.created_paths
+            os.path.lexists(source_path) or source_path in self.created_paths
         ) and source_path not in self.removed_paths
         if not source_exists:
             raise FileNotFoundError(f"No such file or directory: {source_path}")
 
         destination_exists = (
-            destination_path.exists() or destination_path in self.created_paths
+            os.path.lexists(destination_path)
+            or destination_path in self.created_paths
         ) and destination_path not in self.removed_paths
         if destination_exists and not override:
             raise FileExistsError(
